@@ -25,6 +25,7 @@ def audit(ctx, c, animals):
     starv = clamp = transfer = False
     hours_used = {"small": np.zeros(n), "medium": np.zeros(n), "large": np.zeros(n)}
     hours_cap = {"small": 0.0, "medium": 0.0, "large": 0.0}
+    above = {"small": np.zeros(n, bool), "medium": np.zeros(n, bool), "large": np.zeros(n, bool)}
     for a in animals:
         P = np.asarray(a.population, float)
         if len(P) != n + 1:
@@ -71,8 +72,9 @@ def audit(ctx, c, animals):
         hours_cap[a.animal_size] += a.baseline_slaughter * a.animal_slaughter_hours
         if np.any(sd > 0):
             starv = True
-        if np.any((np.abs(pre - sl - target) <= 1e-6 * scale) & (sl > 0)) or np.any((pre < target) & (sl == 0)):
-            clamp = True
+        if np.any((np.abs(pre - sl - target) <= 1e-6 * scale) & (sl > 0)):
+            clamp = True                      # slaughter stopped exactly at the target herd
+        above[a.animal_size] |= (pre - sl - target) > 1e-6 * scale       # months in which this species could have been slaughtered further
         if milk:
             meat = byname.get("meat_" + a.animal_species)
             tb = np.asarray(a.transfer_births, float)
@@ -96,8 +98,8 @@ def audit(ctx, c, animals):
                     m = int(np.argmax(d))
                     ctx.fail("dairy-to-meat-transfer-mismatch",
                              "%s month %d: retired %.9g + surviving calves %.9g but meat herd received %.9g" % (a.animal_species, m, ret[m], tb[m], mt[m]), case)
-                if np.any(out > 0):
-                    transfer = True
+                if np.any(ret > 0) and np.any(tb > 0):
+                    transfer = True           # both retirements and surviving calves moved to the meat herd
         elif byname.get("milk_" + a.animal_species) is None and np.any(np.abs(tp) > 0):
             ctx.fail("transfer-into-meat-herd-without-dairy-herd", a.animal_type, case)
     for size in hours_used:
@@ -106,8 +108,8 @@ def audit(ctx, c, animals):
             m = int(np.argmax(over))
             ctx.fail("slaughter-hours-exceed-size-class-capacity",
                      "%s animals month %d: %.9g h used of %.9g h" % (size, m, hours_used[size][m], hours_cap[size]), case)
-        if hours_cap[size] > 0 and np.any(hours_used[size] >= hours_cap[size] * (1 - 1e-9)):
-            clamp = True
+        if hours_cap[size] > 0 and np.any((hours_used[size] >= hours_cap[size] * (1 - 1e-9)) & above[size]):
+            clamp = True                      # the size class ran out of slaughter hours while animals above target remained
     ctx.event("starvation" if starv else "no_starvation")
     ctx.event("clamp_binding" if clamp else "no_clamp")
     ctx.event("dairy_transfer" if transfer else "no_transfer")
